@@ -205,7 +205,8 @@ theorem removeWaiterFor_dinv {s : RState} (h : DInv s) (id : Nat) (f : String) (
 
 /-- the state of `unsubscribeFilters` before the slab / datalog / notification updates -/
 def ufState1 (s : RState) (id : Nat) (ids : List Nat) (c : Conn) (f : String) : RState :=
-  { s with subscriptionMap := ainsert f (ids.filter (· ≠ id)) s.subscriptionMap, shared := ufShared s f c.clientId }
+  { s with subscriptionMap := ainsert f (ids.filter (· ≠ id)) s.subscriptionMap, shared := ufShared s f c.clientId,
+           turnMoved := ufTurnMoved s f c.clientId }
 
 theorem ufState_dinv {s : RState} {id : Nat} {ids : List Nat} {c : Conn} {f : String} (h : DInv s)
     (hc : getConn s id = some c) :
@@ -214,9 +215,9 @@ theorem ufState_dinv {s : RState} {id : Nat} {ids : List Nat} {c : Conn} {f : St
   have h1 : DInv (ufState1 s id ids c f) :=
     (h.with_shared _ (ufShared_nonempty h f c.clientId)).congr rfl rfl rfl rfl rfl rfl rfl
   have hc1 : getConn (ufState1 s id ids c f) id = some c := hc
-  have h2 := h1.of_set (s' := setConn _ id (ufConn c f)) hc1 rfl
+  have h2 := h1.of_set (s' := setConn _ id (ufConn s.datalog c f)) hc1 rfl
     (show ReqsOK _ (c.tracker.requests.filter _) from (h.trk id c hc).filter _) rfl rfl rfl rfl rfl rfl
-  have l2 : Live (setConn (ufState1 s id ids c f) id (ufConn c f)) id := by
+  have l2 : Live (setConn (ufState1 s id ids c f) id (ufConn s.datalog c f)) id := by
     unfold Live; rw [getConn_setConn_live hc1]; simp
   refine ⟨?_, fun e => ?_, l2⟩
   · unfold ufState
